@@ -157,3 +157,26 @@ Section C03.
       pose proof (Herr e eq_refl) as ->. exfalso. apply (proj1 Href eq_refl), Hm.
   Qed.
 End C03.
+
+(** Reading of the step test: for a step [td] that the normalisation handles ([unit_ok]), the pair passes iff
+    the step is not (numerically) zero and the cosine between the step and the merge axis of the later input
+    is within 1e-6 + 1e-5 of 1. *)
+Lemma step_test_reading unitv dim Ap A :
+  let td := vsub (trans_of A) (trans_of Ap) in
+  (near_zero td = false -> unit_ok unitv td) ->
+  (bad_step unitv dim Ap A = false <->
+   near_zero td = false /\
+   (Qabs (dot (unitv td) (unitv (col3 A dim)) - 1) <= 11 # 1000000)%Q).
+Proof.
+  intros td Hok. unfold bad_step, step_dir. fold td.
+  destruct (near_zero td) eqn:Enz.
+  - rewrite Enz. cbn [orb]. split; [discriminate | intros [H _]; discriminate].
+  - destruct (Hok eq_refl) as (c & _ & E & N).
+    assert (Hl : length (unitv td) = 3).
+    { rewrite (veq_length _ _ E). unfold vscale. rewrite map_length. reflexivity. }
+    rewrite (near_zero_unit _ N Hl). cbn [orb]. rewrite negb_false_iff.
+    unfold close, allclose. cbn [length Nat.eqb andb combine forallb fst snd]. rewrite andb_true_r.
+    rewrite Qle_bool_iff. unfold step_atol, rtol_default.
+    assert (Ht : ((1 # 1000000) + (1 # 100000) * Qabs 1 == 11 # 1000000)%Q) by reflexivity.
+    rewrite Ht. split; [intros H; split; [reflexivity | exact H] | intros [_ H]; exact H].
+Qed.
